@@ -848,6 +848,21 @@ func (c *Ctx) checkBucketStorage(rule string, fVal, fDur *types.Var) {
 			}
 			c.check(okSrc, rule, c.fnKey(fn)+":"+f.Name(), st.Pos(), f.Name()+" <- pair."+want.Name()+"()",
 				"histogramBucket."+f.Name()+" is not filled from the pair's "+want.Name()+"(): the stored upper bounds differ from the ones BucketPairs derived", c.describe(st))
+			// both kinds of bound are filled for every bucket, whatever the type the table is built for:
+			// the cached table is shared by histograms of either kind with equal specifications (the cache
+			// key does not contain the type)
+			if okSrc {
+				if lp := innermostLoop(loopsOf(fn), st.Block()); lp != nil {
+					every := true
+					for _, la := range lp.Latch {
+						if !st.Block().Dominates(la) {
+							every = false
+						}
+					}
+					c.check(every, rule, c.fnKey(fn)+":"+f.Name()+":every-bucket", st.Pos(), f.Name()+" is filled in every iteration",
+						"histogramBucket."+f.Name()+" is filled only for some buckets / some table types: a table built for one kind and found in the cache by a histogram of the other kind has all-zero bounds there - every sample lands in the first bucket and the delivered bounds do not tile the line", c.describe(st))
+				}
+			}
 		})
 	}
 	c.floor(rule, n, 2)
